@@ -285,69 +285,88 @@ Relation(c) == RelationOf(c, Allowed(c))
 (* ------------------------------------------------------------------ implementation-shaped decision procedures
    How the code decides (one operator per code block of comparers.py / linear_comparer.py), on the same exact lattice
    values.  These operators EXPLAIN, they never decide a verdict: the model instance compares every observation with
-   ImplOutcome as well and reports a mismatch as DRIFT.  TLC checks ImplRefines (does the implementation-shaped model
-   stay inside the property-level Allowed set?) and finds it FALSE -- the counterexamples are the design-level defects
-   of DeviationClass -- and checks LawImplDeviatesOnlyThere: outside these circumscribed situations the two agree.
+   ImplOutcome as well and reports a mismatch as DRIFT.  ImplOutcome(c, flaws) models the CURRENT code for
+   flaws = {}; each element of flaws switches one code block back to the way it was written before it was repaired
+   (the model variants are kept so that TLC keeps exhibiting the design-level counterexamples, and as a vacuity guard
+   of ImplRefines: a variant that stops violating it means the refinement check has lost its teeth).
 
-     between / congruence   a value of complex type never reaches the comparison: "start <= x <= stop" and "x % m" raise
-                            TypeError, which the grader turns into the generic "Could not check input" error; a
-                            non-real value is refused by between_comparer with "Input must be real."
-     congruence             both sides are reduced modulo m, then compared: a shift by tolerance/1000 below a
-                            multiple of m (target = 0 mod m) lands at the far end of the residue interval
+   current code
+     between                a non-real value is refused with "Input must be real."; a real value of complex type is
+                            replaced by its real part before it is ordered
+     congruence             a real value of complex type is replaced by its real part; both sides are reduced modulo m
+                            and compared directly and one period up and down (a circle, not a line); a non-real value
+                            raises TypeError in "x % m", which the grader turns into the generic error
      eigenvector            M v is compared with lambda v relative to |M v|: for the eigenvalue 0 the percentage
                             tolerance has radius 0 and anything but an exactly vanishing M v is refused
-     vector_span            numpy.linalg.lstsq returns NO residual when the system is rank deficient or has no more rows
-                            than columns; the norm of the empty residual is 0, so the submission is accepted
-     LinearComparer         the "equals" and "offset" errors are sqrt(sum((x - y)^2)) WITHOUT complex conjugation: for
-                            complex samples the sum of squares can vanish although x # y; proportional and linear use
-                            least squares of  expected = a * student + b  (a constant student falls back to offset);
-                            max() over no applicable mode raises                                                  *)
+                            (NOT repaired: DeviationClass "eigen-zero-eigenvalue-percent-tolerance")
+     vector_span            least squares, then the norm of  v - A x  itself
+     LinearComparer         "equals" and "offset" errors are sqrt(sum |x - y|^2); proportional and linear use least
+                            squares of  expected = a * student + b  (a constant student falls back to offset);
+                            max() over no applicable mode raises
+   variants (the code before the repairs)
+     "OriginalComplexOrdering"    between / congruence: a value of complex type reaches "start <= x <= stop" / "x % m",
+                                  which raise TypeError -> generic "Could not check input" error       (92e118a, 230ee1e)
+     "OriginalCongruenceLinear"   congruence: the reduced values are compared on a line: a shift by tolerance/1000 below
+                                  a multiple of m (target = 0 mod m) lands at the far end of the residue interval (230ee1e)
+     "OriginalSpanResidual"       vector_span: the residual array of numpy.linalg.lstsq is used, which is EMPTY (norm 0)
+                                  when the system is rank deficient or has no more rows than columns       (1c05874)
+     "OriginalLinearSquares"      LinearComparer: sqrt(sum((x - y)^2)) WITHOUT moduli: for complex samples the sum of
+                                  squares can vanish although x # y                                        (8219f0b) *)
+FlawNames == {"OriginalComplexOrdering", "OriginalCongruenceLinear", "OriginalSpanResidual", "OriginalLinearSquares"}
 SqSum(D) == GSum([k \in 1..Len(D) |-> GMul(D[k], D[k])])
-ImplSpanAccept(v, vs) == Rank(vs) < Len(vs) \/ Len(v) <= Len(vs) \/ InSpan(v, vs)
+OriginalSpanAccept(v, vs) == Rank(vs) < Len(vs) \/ Len(v) <= Len(vs) \/ InSpan(v, vs)
+ImplSpanAccept(v, vs, flaws) == IF "OriginalSpanResidual" \in flaws THEN OriginalSpanAccept(v, vs) ELSE InSpan(v, vs)
 \* a vanishing sum of squares of a non-zero sequence is an exact cancellation: the tolerance/1000 shift of the first
 \* term (jit # 0) destroys it unless that term is itself zero
-ImplSqZero(T, jit) == SqSum(T) = GZ /\ (jit = 0 \/ SeqIsZero(T) \/ T[1] = GZ)
-ImplOffsetZero(X, dx, Y, dy, jit) == LET D == DiffSeq(Y, dy, X, dx)   n == Len(D)   tot == GSum(D)
-                                     IN ImplSqZero(TLCEval([k \in 1..n |-> GSub(tot, GScale(n, D[k]))]), jit)
+OriginalSqZero(T, jit) == SqSum(T) = GZ /\ (jit = 0 \/ SeqIsZero(T) \/ T[1] = GZ)
+ImplSqZero(T, jit, flaws) == IF "OriginalLinearSquares" \in flaws THEN OriginalSqZero(T, jit) ELSE SeqIsZero(T)
+ImplOffsetZero(X, dx, Y, dy, jit, flaws) ==
+  LET D == DiffSeq(Y, dy, X, dx)   n == Len(D)   tot == GSum(D)
+  IN ImplSqZero(TLCEval([k \in 1..n |-> GSub(tot, GScale(n, D[k]))]), jit, flaws)            \* n (mean - d[k])
 \* error_calculators[m](student S, expected E) vanishes
-ImplFitZero(m, E, dE, S, dS, jit) ==
-  CASE m = "equals" -> ImplSqZero(DiffSeq(S, dS, E, dE), jit)
+ImplFitZero(m, E, dE, S, dS, jit, flaws) ==
+  CASE m = "equals" -> ImplSqZero(DiffSeq(S, dS, E, dE), jit, flaws)
     [] m = "proportional" -> RelProp(E, S)
-    [] m = "offset" -> ImplOffsetZero(S, dS, E, dE, jit)
-    [] m = "linear" -> IF SeqIsConst(S) THEN ImplOffsetZero(S, dS, E, dE, jit) ELSE RelLin(E, S)
+    [] m = "offset" -> ImplOffsetZero(S, dS, E, dE, jit, flaws)
+    [] m = "linear" -> IF SeqIsConst(S) THEN ImplOffsetZero(S, dS, E, dE, jit, flaws) ELSE RelLin(E, S)
 SignOf(q) == IF q[1] > 0 THEN 1 ELSE IF q[1] < 0 THEN -1 ELSE 0
 JitterWraps(c) == c.jit # 0 /\ Div(VRe(c.P[1][1]), VRe(c.P[1][2]))[2] = 1 /\ c.jit * SignOf(VRe(c.P[1][2])) < 0
 \* eigenvalue 0, percentage tolerance, and the tolerance/1000 shift of the first coordinate makes M v non-zero
 EigenZeroShift(c) == /\ c.tol = "pct" /\ c.jit # 0 /\ VIsZero(c.P[1][2])
                      /\ \E i \in 1..c.P[1][1].shape[1] : c.P[1][1].ent[(i - 1) * c.P[1][1].shape[2] + 1] # GZ
-ImplOutcome(c) ==
+ImplOutcome(c, flaws) ==
   IF c.evalerr \/ WrongShape(c) THEN CHOOSE a \in Allowed(c) : TRUE
   ELSE CASE c.kind \in {"cong", "between"} ->
-              IF c.typed \/ ~AllReal(c) THEN SFError
+              IF ~AllReal(c) \/ (c.typed /\ "OriginalComplexOrdering" \in flaws) THEN SFError
               ELSE IF ~AllMember(c) THEN Grade(Zero)
-              ELSE IF c.kind = "cong" /\ JitterWraps(c) THEN Grade(Zero) ELSE Grade(One)
+              ELSE IF c.kind = "cong" /\ "OriginalCongruenceLinear" \in flaws /\ JitterWraps(c) THEN Grade(Zero)
+              ELSE Grade(One)
          [] c.kind = "eigen" ->
               IF AllMember(c) /\ EigenZeroShift(c) THEN Grade(Zero) ELSE CHOOSE a \in Allowed(c) : TRUE
          [] c.kind = "span" ->
-              IF \A s \in 1..NSamples(c) : ~VIsZero(c.S[s]) /\ ImplSpanAccept(c.S[s].ent, Ents(c.P[s])) THEN Grade(One) ELSE Grade(Zero)
+              IF \A s \in 1..NSamples(c) : ~VIsZero(c.S[s]) /\ ImplSpanAccept(c.S[s].ent, Ents(c.P[s]), flaws)
+              THEN Grade(One) ELSE Grade(Zero)
          [] c.kind = "linear" ->
               LET E == LinE(c)  dE == c.P[1][1].den  S == LinS(c)  dS == c.S[1].den   v == ValidModes(c.cfg, E, S) IN
-              IF v = {} THEN SFError ELSE Grade(MaxCredit(c.cfg, {m \in v : ImplFitZero(m, E, dE, S, dS, c.jit)}))
+              IF v = {} THEN SFError ELSE Grade(MaxCredit(c.cfg, {m \in v : ImplFitZero(m, E, dE, S, dS, c.jit, flaws)}))
          [] OTHER -> CHOOSE a \in Allowed(c) : TRUE
-ImplRefines(c) == ImplOutcome(c) \in Allowed(c)
-\* the circumscribed situations in which the implementation-shaped model leaves the documented class
-DeviationClass(c) ==
+ImplRefines(c, flaws) == ImplOutcome(c, flaws) \in Allowed(c)
+\* the circumscribed situations in which the implementation-shaped model (with the given variants) leaves the class
+DeviationClass(c, flaws) ==
   IF c.evalerr \/ WrongShape(c) THEN "none"
-  ELSE IF c.kind \in {"cong", "between"} /\ c.typed /\ AllReal(c) /\ AllMember(c)
+  ELSE IF "OriginalComplexOrdering" \in flaws /\ c.kind \in {"cong", "between"} /\ c.typed /\ AllReal(c) /\ AllMember(c)
        THEN (IF c.kind = "between" THEN "between-real-typed-complex" ELSE "congruence-real-typed-complex")
-  ELSE IF c.kind = "cong" /\ ~c.typed /\ AllReal(c) /\ AllMember(c) /\ JitterWraps(c) THEN "congruence-wraparound"
+  ELSE IF "OriginalCongruenceLinear" \in flaws /\ c.kind = "cong" /\ AllReal(c) /\ AllMember(c) /\ JitterWraps(c)
+       THEN "congruence-wraparound"
   ELSE IF c.kind = "eigen" /\ AllMember(c) /\ EigenZeroShift(c) THEN "eigen-zero-eigenvalue-percent-tolerance"
-  ELSE IF c.kind = "span" /\ ~AllMember(c) /\ \E s \in 1..NSamples(c) : Rank(Ents(c.P[s])) < Len(c.P[s]) \/ Len(c.S[s].ent) <= Len(c.P[s])
+  ELSE IF "OriginalSpanResidual" \in flaws /\ c.kind = "span" /\ ~AllMember(c)
+          /\ \E s \in 1..NSamples(c) : Rank(Ents(c.P[s])) < Len(c.P[s]) \/ Len(c.S[s].ent) <= Len(c.P[s])
        THEN "span-rank-deficient"
-  ELSE IF c.kind = "linear" /\ ~(\A s \in 1..NSamples(c) : VIsReal(c.S[s]) /\ VIsReal(c.P[s][1]))
+  ELSE IF "OriginalLinearSquares" \in flaws /\ c.kind = "linear"
+          /\ ~(\A s \in 1..NSamples(c) : VIsReal(c.S[s]) /\ VIsReal(c.P[s][1]))
        THEN "linear-complex-sum-of-squares"
   ELSE "none"
-LawImplDeviatesOnlyThere(c) == ImplRefines(c) \/ DeviationClass(c) # "none"
+LawImplDeviatesOnlyThere(c, flaws) == ImplRefines(c, flaws) \/ DeviationClass(c, flaws) # "none"
 
 (* ------------------------------------------------------------------ overflow-aware comparison of non-negative rationals *)
 RECURSIVE CmpFrac(_, _, _, _)
@@ -424,19 +443,19 @@ LinearGuard(c) ==
   IN /\ \A m \in Modes \ HoldsLoose(E, dE, S, dS) :
           Far(c, FitRes2(m, E, dE, S, dS), mag2) /\ Far(c, FitRes2(m, S, dS, E, dE), mag2)
      /\ SeqIsZero(S) \/ Far(c, Q(N2(S), dS * dS), mag2)
-(* A percentage of zero is zero: where the natural reference of a percentage tolerance vanishes (eigenvalue 0: M v = 0 has
-   no scale) and under the tolerance 0, a member is ON the boundary of the tolerance band; a target congruent to 0 sits
-   at the two ends of the residue interval, so that a rounding error of the reduction moves a member to the far end.
-   In these situations only exact binary arithmetic (power-of-two denominators) decides membership the same way in
-   floating point, and only such cases are generated (DESIGN 2.5: boundary values only where exact in binary).
-   (The defects behind these boundaries are reproduced with exact dyadic values plus the tolerance/1000 shift, see
-   DeviationClass; with inexact values the real code shows them too: eigenvector [0.3, -0.1] of [[1,3],[3,9]] for
-   the eigenvalue 0 is rejected under the default percentage tolerance, 22*pi is rejected for target 0 modulo 2*pi.) *)
+(* A percentage of zero is zero: where the reference of a percentage tolerance vanishes (eigenvalue 0: M v = 0 has no
+   scale; a target congruent to 0: the reduced expected value is 0) and under the tolerance 0, the tolerance band has
+   radius 0 and a member is ON its boundary: exact equality is what a percentage tolerance then documents, and the
+   specification demands no more than that -- such cases are judged only where floating point reproduces the exact
+   equality, i.e. for power-of-two denominators and without the tolerance/1000 shift (DESIGN 2.5: boundary values only
+   where exact in binary).  The one exception is the eigenvector comparer: there the statement promises acceptance
+   "under any rescaling of v", so the shifted eigenvector of the eigenvalue 0 stays in the generated space
+   (DeviationClass "eigen-zero-eigenvalue-percent-tolerance"; on the real code also [0.3, -0.1] for [[1,3],[3,9]]). *)
 RECURSIVE IsPow2(_)
 IsPow2(d) == d = 1 \/ (d % 2 = 0 /\ IsPow2(d \div 2))
 ExactArithmetic(c) == \A s \in 1..NSamples(c) : IsPow2(c.S[s].den) /\ \A i \in 1..Len(c.P[s]) : IsPow2(c.P[s][i].den)
-ZeroReference(c, s) == \/ c.tol = "pct" /\ c.kind = "eigen" /\ VIsZero(c.P[s][2])
-                       \/ c.kind = "cong" /\ Div(VRe(c.P[s][1]), VRe(c.P[s][2]))[2] = 1     \* residue 0: the two ends of the residue interval
+ZeroReference(c, s) == c.tol = "pct" /\ ((c.kind = "eigen" /\ VIsZero(c.P[s][2]))
+                                       \/ (c.kind = "cong" /\ Div(VRe(c.P[s][1]), VRe(c.P[s][2]))[2] = 1))
 OnBoundary(c) == c.tol = "zero" \/ \E s \in 1..NSamples(c) : ZeroReference(c, s)
 \* the shift tolerance/1000 is 1e-10 under the percentage tolerance: meaningful for vectors of norm >= 0.1 only
 JitterOK(c) == c.jit # 0 => \/ c.tol = "abs"
